@@ -47,9 +47,21 @@ def kindOf (s : String) : Option SKind :=
   | "u64" => some (.uint 64) | "u" => some (.uint 64) | "f32" => some .f32 | "f64" => some .f64 | "s" => some .str
   | _ => none
 
+/-- `data.ToCamelCase` on ASCII identifiers: the key of an inner struct field that has no point tag -/
+def toCamelCase (s : Bytes) : Bytes :=
+  let isLower := fun (c : UInt8) => 97 ≤ c.toNat && c.toNat ≤ 122
+  let lower := fun (c : UInt8) => if 65 ≤ c.toNat && c.toNat ≤ 90 then UInt8.ofNat (c.toNat + 32) else c
+  match s.findIdx? isLower with
+  | none => s.map lower
+  | some 0 => s
+  | some 1 => (s.take 1).map lower ++ s.drop 1
+  | some i => (s.take (i - 1)).map lower ++ s.drop (i - 1)
+
 def parseSubs (s : String) : Option (List (Bytes × SKind)) :=
   (s.splitOn "+").mapM (fun x => match x.splitOn "=" with
-    | [k, kd] => do pure ((← ofHex k), (← kindOf kd))
+    | [k, kd] =>
+      if k.startsWith "^" then do pure (toCamelCase (← ofHex (k.drop 1).toString), (← kindOf kd))
+      else do pure ((← ofHex k), (← kindOf kd))
     | _ => none)
 
 def parseFty (s : String) : Option FieldTy :=
